@@ -120,6 +120,38 @@ def fmt_fields(fmt_call, env, prog, fi):
     return [args[int(f) if f else i] for i, f in enumerate(fields)]
 
 
+def fmt_sizes(ctx, fi, unpack_call, env):
+    """field sizes of struct.unpack('>{0}s{1}s..'.format(a, b, ..), ..) (a sa.sval CallRec) when the key size of the
+    negotiated cipher / integrity / prf object is env['encr'] / env['integ'] / env['prf'] and the SA is ESP"""
+    from .. import tq
+    f = unpack_call.args.get('#0')
+    if f is None or not (tq.is_call(f, 'method.format') and f[2][0] == 'const' and isinstance(f[2][2], str)):
+        return None
+    text = f[2][2]
+    fields = re.findall(r'\{(\d*)\}s', text[1:])
+    if not text.startswith('>') or ''.join('{%s}s' % x for x in fields) != text[1:]:
+        return None
+
+    def leaf(t):
+        if t[0] == 'attr' and t[2] == 'key_size' and tq.is_call(t[1]):
+            kind = {'new crypto.Cipher': 'encr', 'new crypto.Integrity': 'integ', 'new crypto.Prf': 'prf'}.get(t[1][1])
+            if kind in env:
+                return env[kind]
+        if t[0] == 'attr' and t[2] == 'protocol_id':
+            return 'ESP'
+        if t[0] == 'global' and t[1].endswith('Protocol.ESP'):
+            return 'ESP'
+        raise tq.NoValue()
+    try:
+        args = [tq.teval(v, leaf) for k, v in f[3]]
+    except tq.NoValue:
+        return None
+    try:
+        return [args[int(x) if x else i] for i, x in enumerate(fields)]
+    except IndexError:
+        return None
+
+
 def run(ctx):
     prog, res = ctx.prog, ctx.res
 
